@@ -451,6 +451,9 @@ func checkC13(e *Env) {
 		digests := map[int]string{}
 		for i := range res[:len(res)-1] {
 			op, r := &g.ops[i], &res[i]
+			if op.Fn == "pause" {
+				continue
+			}
 			if r.Panic != "" {
 				// panics are C14's, but a panic that depends on history is a C13 matter: compare with solo below
 				obs.Inc("panics_seen")
@@ -648,6 +651,25 @@ func checkC13(e *Env) {
 		runSequence("hunt"+itoa(h), g, 1)
 	})
 
+	// (a3) the same calls before and after the process has been idle for a while and the
+	// garbage collector has run (entries that expire, pools that are emptied)
+	npause := e.pick(6, 24)
+	parallel(npause, e.Workers, func(h int) {
+		g := &seqGen{e: e, r: rng.New(e.Seed, "C13-pause-"+itoa(h)), bufs: map[int][]byte{}}
+		g.memoHunt(1)
+		first := append([]plan.Op(nil), g.ops...)
+		for _, ms := range []int64{1100, 2100} {
+			g.add(plan.Op{Fn: "pause", N: ms})
+			for k, op := range first {
+				if k%3 == h%3 { // a third of the calls again, in the same order
+					g.add(op)
+				}
+			}
+		}
+		obs.Inc("sequences_with_idle_periods")
+		runSequence("pause"+itoa(h), g, 1)
+	})
+
 	// (b) random sequences
 	nseq := e.pick(60, 2000)
 	parallel(nseq, e.Workers, func(s int) {
@@ -692,7 +714,7 @@ func checkC13(e *Env) {
 	e.WriteEvidence("exploration", map[string]any{
 		"evaluations":                      totalOps,
 		"distinct_nontrivial":              dist.Len(),
-		"rule":                             "cases are call sequences executed in one fresh process each: (a) every ordered pair of first-used languages (10x10; thorough 13x13 incl. -1, 10, 100, three first-call kinds, two repetitions) followed by probe calls on all ten languages; (a') ten kinds of failing or unsupported first calls, each followed by first use of every language; (a'') memo-hunting patterns (a string accepted under one language asked under another, the same words in another spelling, a near miss right after a hit, the same entropy under another language, identical and almost identical seed arguments, scripted sources replayed under another language); (b) seeded random sequences of 100-300 calls (one call in five is repeated immediately, then followed by different ones) over all six functions, ten languages and unsupported values, with failing calls, repeated inputs far apart, caller-owned entropy buffers reused across calls, and NewMnemonic on scripted and default sources; every result is compared with the history-free reference model and with the same call executed alone as the first call of another fresh process (all deterministic calls in quick; one in eight of the random sequences' calls in thorough); (c) a few sequences of 4000 (thorough 20000) calls; (d) NewMnemonic over one scripted source that stays installed across calls, reports transient errors during some of them and then works again; entropy buffers are re-inspected after every call and at the end, and every retained result is re-read (digest) at the end of its sequence; non-trivial = every call with history; distinct = distinct calls (function, arguments)",
+		"rule":                             "cases are call sequences executed in one fresh process each: (a) every ordered pair of first-used languages (10x10; thorough 13x13 incl. -1, 10, 100, three first-call kinds, two repetitions) followed by probe calls on all ten languages; (a') ten kinds of failing or unsupported first calls, each followed by first use of every language; (a'') memo-hunting patterns (a string accepted under one language asked under another, the same words in another spelling, a near miss right after a hit, the same entropy under another language, identical and almost identical seed arguments, scripted sources replayed under another language); (a3) the same calls again after the process was idle for 1.1 s and 2.1 s with garbage collections in between; (b) seeded random sequences of 100-300 calls (one call in five is repeated immediately, then followed by different ones) over all six functions, ten languages and unsupported values, with failing calls, repeated inputs far apart, caller-owned entropy buffers reused across calls, and NewMnemonic on scripted and default sources; every result is compared with the history-free reference model and with the same call executed alone as the first call of another fresh process (all deterministic calls in quick; one in eight of the random sequences' calls in thorough); (c) a few sequences of 4000 (thorough 20000) calls; (d) NewMnemonic over one scripted source that stays installed across calls, reports transient errors during some of them and then works again; entropy buffers are re-inspected after every call and at the end, and every retained result is re-read (digest) at the end of its sequence; non-trivial = every call with history; distinct = distinct calls (function, arguments)",
 		"samples":                          smp.List(),
 		"ordered_first_use_pairs_covered":  pairs.Len(),
 		"ordered_first_use_pairs_possible": wantPairs,
